@@ -142,10 +142,23 @@ fn int_set(v: &mut V, n: i128) {
     }
 }
 
+/// numbers that mean something in the application domain (time periods, week numbers, leap
+/// seconds, table sizes, round decimals): special-casing happens at these
+pub const DOMAIN_NUMBERS: &[f64] = &[
+    604800.0, 604799.0, 302400.0, 86400.0, 86399.0, 43200.0, 3600.0, 1800.0, 900.0, 600.0, 300.0, 60.0, 30.0, 15.0, 10.0, 7.0, 24.0, 12.0, 100.0, 1000.0, 1.0e4, 1.0e5, 1.0e6, 1.0e7,
+    604800000.0, 86400000.0, 1023.0, 1024.0, 2047.0, 2048.0, 4095.0, 4096.0, 8191.0, 8192.0, 18.0, 19.0, 37.0, 1980.0, 2000.0, 1996.0, 1461.0, 365.0, 366.0, 360.0, 180.0, 90.0, 299792.458, 299792458.0,
+    6378137.0, 6356752.3142, 20200000.0, 26560000.0, 42164000.0, 0.5, 0.25, 0.1, 0.01, 0.001, 0.0001, 1.0, 2.0, 5.0,
+];
+
 pub fn mut_int(v: &mut V, rng: &mut Rng) {
     let (lo, hi) = int_bounds(v);
     let cur = int_get(v);
     let span = (hi - lo) as u128 + 1;
+    if rng.chance(1, 10) {
+        let d = *rng.pick(DOMAIN_NUMBERS) as i128 + rng.range(-1, 1) as i128;
+        int_set(v, d);
+        return;
+    }
     let n = match rng.below(14) {
         0 => 0,
         1 => 1,
@@ -192,7 +205,17 @@ pub fn mut_float(v: &mut V, rng: &mut Rng) {
         V::F64(x) => (*x, false),
         _ => return,
     };
-    let y: f64 = match rng.below(24) {
+    let y: f64 = match rng.below(27) {
+        24 | 25 => {
+            let d = *rng.pick(DOMAIN_NUMBERS);
+            let d = if rng.bool() { d } else { -d };
+            match rng.below(3) {
+                0 => d,
+                1 => d + (rng.f64_unit() - 0.5) * 1e-3,
+                _ => d * (1.0 + (rng.f64_unit() - 0.5) * 1e-9),
+            }
+        }
+        26 => x + *rng.pick(DOMAIN_NUMBERS),
         0 => 0.0,
         1 => -0.0,
         2 => x * (1.0 + (2.0f64).powi(-(rng.range(8, 40) as i32))),
@@ -330,7 +353,7 @@ pub fn mut_sig(v: &mut V, rng: &mut Rng) {
 
 fn mut_seq(xs: &mut Vec<V>, rng: &mut Rng, tpl: &Templates, c: Ctxt) -> &'static str {
     let n = xs.len();
-    match rng.below(12) {
+    match rng.below(14) {
         0 if n > 1 => {
             rng.shuffle(xs);
             "seq_shuffle"
@@ -370,6 +393,20 @@ fn mut_seq(xs: &mut Vec<V>, rng: &mut Rng, tpl: &Templates, c: Ctxt) -> &'static
             let b = rng.usize_below(n);
             xs.swap(a, b);
             "seq_swap"
+        }
+        8 if n > 1 => {
+            // almost sorted: one adjacent transposition
+            let a = rng.usize_below(n - 1);
+            xs.swap(a, a + 1);
+            "seq_adjacent_swap"
+        }
+        9 if n > 2 => {
+            // almost sorted: one element moved somewhere else
+            let a = rng.usize_below(n);
+            let e = xs.remove(a);
+            let b = rng.usize_below(n);
+            xs.insert(b, e);
+            "seq_move_one"
         }
         _ => {
             // grow: by clones of existing elements or of a learned template, to typical capacities
@@ -525,11 +562,71 @@ fn mutate_site(node: &mut V, site: Site, c: Ctxt, rng: &mut Rng, tpl: &Templates
     }
 }
 
+/// make two numeric leaves related: equal, off by one, swapped, or summing to a round number
+pub fn relate_two_leaves(v: &mut V, rng: &mut Rng) -> bool {
+    let mut idx: Vec<usize> = Vec::new();
+    let mut vals: Vec<f64> = Vec::new();
+    let mut i = 0usize;
+    walk_mut(v, ("", ""), &mut |node, site, _| {
+        if site == Site::Int || site == Site::Float {
+            idx.push(i);
+            vals.push(match node {
+                V::F32(x) => *x as f64,
+                V::F64(x) => *x,
+                other => int_get(other) as f64,
+            });
+        }
+        i += 1;
+    });
+    if idx.len() < 2 {
+        return false;
+    }
+    let a = rng.usize_below(idx.len());
+    let mut b = rng.usize_below(idx.len());
+    if a == b {
+        b = (b + 1) % idx.len();
+    }
+    let (va, vb) = (vals[a], vals[b]);
+    let (new_a, new_b): (f64, f64) = match rng.below(6) {
+        0 => (va, va),
+        1 => (va, va + 1.0),
+        2 => (va, va - 1.0),
+        3 => (vb, va),
+        4 => (va, -va),
+        _ => (va, *rng.pick(DOMAIN_NUMBERS) - va),
+    };
+    let (ia, ib) = (idx[a], idx[b]);
+    let mut i = 0usize;
+    walk_mut(v, ("", ""), &mut |node, site, _| {
+        if site == Site::Int || site == Site::Float {
+            let nv = if i == ia { Some(new_a) } else if i == ib { Some(new_b) } else { None };
+            if let Some(nv) = nv {
+                match node {
+                    V::F32(x) => *x = nv as f32,
+                    V::F64(x) => *x = nv,
+                    other => {
+                        if nv.is_finite() {
+                            int_set(other, nv as i128)
+                        }
+                    }
+                }
+            }
+        }
+        i += 1;
+    });
+    true
+}
+
 /// Apply a random mutation strategy; returns labels of what was done.
 pub fn mutate(v: &mut V, rng: &mut Rng, tpl: &Templates) -> Vec<&'static str> {
     let mut done: Vec<&'static str> = Vec::new();
-    let strat = rng.below(20);
+    let strat = rng.below(22);
     match strat {
+        20 | 21 => {
+            if relate_two_leaves(v, rng) {
+                done.push("relate_two_leaves");
+            }
+        }
         0..=7 => {
             // 1..k random sites
             let n = count_sites(v);
